@@ -630,5 +630,120 @@ func main() {
 	}
 	fmt.Println("]")
 	fmt.Println()
+	// ---- the filtered file adapter (C18): per method of FilteredAdapter (persist/file-adapter), in source order:
+	// the values given to setFiltered, reads of the flag, calls on the receiver and on the embedded full adapter;
+	// and every function of the package that writes the flag by other means
+	fmt.Println("/-- per method of FilteredAdapter: (flag, true | false | ?) a setFiltered call with that argument, (self, M), (under, M) a call on the embedded Adapter, in source order -/")
+	fmt.Println("def filteredCalls : List (String × List (String × String)) := [")
+	faFiles, _ := filepath.Glob(filepath.Join(root, "persist", "file-adapter", "*.go"))
+	sort.Strings(faFiles)
+	var fks []sk
+	var flagWriters []string
+	for _, f := range faFiles {
+		if strings.HasSuffix(f, "_test.go") {
+			continue
+		}
+		af, err := parser.ParseFile(fset, f, nil, 0)
+		if err != nil {
+			fmt.Fprintln(os.Stderr, "parse error:", err)
+			os.Exit(1)
+		}
+		for _, d := range af.Decls {
+			fd, ok := d.(*ast.FuncDecl)
+			if !ok || fd.Body == nil {
+				continue
+			}
+			rt := recvOf(fd)
+			recv := ""
+			if fd.Recv != nil && len(fd.Recv.List[0].Names) > 0 {
+				recv = fd.Recv.List[0].Names[0].Name
+			}
+			var calls []string
+			writes := false
+			ast.Inspect(fd.Body, func(x ast.Node) bool {
+				switch n := x.(type) {
+				case *ast.AssignStmt:
+					for _, l := range n.Lhs {
+						if sel, ok := l.(*ast.SelectorExpr); ok && sel.Sel.Name == "filtered" {
+							writes = true
+						}
+					}
+				case *ast.CallExpr:
+					sel, ok := n.Fun.(*ast.SelectorExpr)
+					if !ok {
+						return true
+					}
+					m := sel.Sel.Name
+					// atomic.StoreInt32(&x.filtered, …) and friends
+					if id, ok := sel.X.(*ast.Ident); ok && id.Name == "atomic" && (strings.HasPrefix(m, "Store") || strings.HasPrefix(m, "Swap") || strings.HasPrefix(m, "CompareAndSwap") || strings.HasPrefix(m, "Add")) {
+						for _, a := range n.Args {
+							if u, ok := a.(*ast.UnaryExpr); ok {
+								if s2, ok := u.X.(*ast.SelectorExpr); ok && s2.Sel.Name == "filtered" {
+									writes = true
+								}
+							}
+						}
+					}
+					switch base := sel.X.(type) {
+					case *ast.Ident:
+						if recv != "" && base.Name == recv || (fd.Recv == nil && m == "setFiltered") {
+							if m == "setFiltered" {
+								arg := "?"
+								if len(n.Args) == 1 {
+									if id, ok := n.Args[0].(*ast.Ident); ok && (id.Name == "true" || id.Name == "false") {
+										arg = id.Name
+									}
+								}
+								calls = append(calls, "flag:"+arg)
+							} else {
+								calls = append(calls, "self:"+m)
+							}
+						}
+					case *ast.SelectorExpr:
+						if id, ok := base.X.(*ast.Ident); ok && recv != "" && id.Name == recv && base.Sel.Name == "Adapter" {
+							calls = append(calls, "under:"+m)
+						}
+					}
+				}
+				return true
+			})
+			name := fd.Name.Name
+			if rt != "" {
+				name = rt + "." + name
+			}
+			if writes {
+				flagWriters = append(flagWriters, name)
+			}
+			if rt == "FilteredAdapter" || name == "NewFilteredAdapter" {
+				fks = append(fks, sk{name, calls})
+			}
+		}
+	}
+	sort.Slice(fks, func(i, j int) bool { return fks[i].name < fks[j].name })
+	for i, k := range fks {
+		q := make([]string, len(k.calls))
+		for j, c := range k.calls {
+			kv := strings.SplitN(c, ":", 2)
+			q[j] = fmt.Sprintf("(%q, %q)", kv[0], kv[1])
+		}
+		sep := ","
+		if i == len(fks)-1 {
+			sep = ""
+		}
+		fmt.Printf("  (%q, [%s])%s\n", k.name, strings.Join(q, ", "), sep)
+	}
+	fmt.Println("]")
+	fmt.Println()
+	sort.Strings(flagWriters)
+	fmt.Println("/-- the functions of persist/file-adapter that write the `filtered` field (by assignment or an atomic store) -/")
+	fmt.Printf("def filteredFlagWriters : List String := [")
+	for i, w := range flagWriters {
+		if i > 0 {
+			fmt.Printf(", ")
+		}
+		fmt.Printf("%q", w)
+	}
+	fmt.Println("]")
+	fmt.Println()
 	fmt.Println("end Casbin.Facts")
 }
